@@ -72,6 +72,14 @@ def canon_typed(t):
     """Typed value texts are compared by text, except durations, which have several spellings of one value."""
     if RV.RX["DURATION"].match(t):
         return f"duration:{RV.dec_duration(t).total_seconds()}"
+    if "/" in t:  # periods (also in comma lists): the duration half is canonicalised the same way
+        items = []
+        for item in t.split(","):
+            a, sep, b = item.partition("/")
+            if sep and RV.RX["DURATION"].match(b):
+                b = f"duration:{RV.dec_duration(b).total_seconds()}"
+            items.append(a + sep + b)
+        return ",".join(items)
     return t
 
 
